@@ -2,7 +2,8 @@
 
 What is read from /repo/src/srctools/filesys.py (class RawFileSystem), all fail-closed:
 
-* `__init__` stores `os.path.abspath(path)` as the root (`root_is_abspath`);
+* `__init__` stores `os.path.abspath(path)` as the root (`root_is_abspath`) and the parameter `constrain_path`, unchanged,
+  as `self.constrain_path`; no method of the class assigns either afterwards;
 * `_resolve_path` computes `abs_path = os.path.abspath(os.path.join(self.path, path))`, raises
   `RootEscapeError` under a boolean condition and returns `abs_path`.  The *raise condition* (conjunction of the
   enclosing `if` tests) is translated into the predicate language of rocq/SM/PathNorm.v (`gx` over string
@@ -250,6 +251,14 @@ def translate() -> tuple[str, dict]:
     path_stores = [x for f in raw.body if isinstance(f, ast.FunctionDef) for x in ast.walk(f)
                    if isinstance(x, (ast.Assign, ast.AugAssign, ast.AnnAssign))
                    for t in (x.targets if isinstance(x, ast.Assign) else [x.target]) if _dotted(t) == 'self.path']
+    # self.constrain_path = constrain_path (the constructor's parameter, unchanged), assigned nowhere else in the class
+    con_stores = [(f.name, x) for f in raw.body if isinstance(f, ast.FunctionDef) for x in ast.walk(f)
+                  if isinstance(x, (ast.Assign, ast.AugAssign, ast.AnnAssign))
+                  for t in (x.targets if isinstance(x, ast.Assign) else [x.target]) if _dotted(t) == 'self.constrain_path']
+    init_params = {a.arg for a in init.args.args + init.args.kwonlyargs}
+    con_from_param = any(fn == '__init__' and isinstance(x, ast.Assign) and isinstance(x.value, ast.Name)
+                         and x.value.id == 'constrain_path' and 'constrain_path' in init_params for fn, x in con_stores)
+    con_elsewhere = any(fn != '__init__' for fn, _ in con_stores) or sum(1 for fn, _ in con_stores if fn == '__init__') != 1
     guard, srcs = _resolve_guard(resolve)
     sites = _access_sites(raw)
     if not sites:
@@ -263,6 +272,7 @@ def translate() -> tuple[str, dict]:
         f'Definition raise_if : gx := {guard}.',
         f'Definition root_is_abspath : bool := {"true" if root_abs else "false"}.',
         f'Definition root_reassigned_in_class : bool := {"true" if path_stores else "false"}.',
+        f'Definition constrain_flag_is_the_constructor_argument : bool := {"true" if con_from_param and not con_elsewhere else "false"}.',
         '(* every file-system access of RawFileSystem: (method, callee, path argument is a _resolve_path result) *)',
         'Definition access_sites : list (string * string * bool) := [',
         ';\n'.join(f'  ("{m}", "{c}", {"true" if ok else "false"})' for m, c, _, ok in sites),
